@@ -19,9 +19,10 @@ def gen_cases(ctx, ncase):
         lo = max(3, (nmin + nvar - 1) // nvar + 1)
         n = rng.randint(lo, max(lo + 2, 14 if ctx.quick() else 25))
         hetero = rng.random() < .5
+        force_cont = (ic % 5 == 4)     # a fifth of the cases: continuous moving neighbourhood with error variances and clustered targets
         dbin = gen_db(rng, ndim, nvar, n, nfex, p_na=(0.25 if hetero else 0.0), p_coord_na=(0.08 if rng.random() < .3 else 0.0),
-                      with_verr=rng.random() < .3, with_sel=rng.random() < .25)
-        calcul = [0] if rng.random() < .8 else [1] + [rng.choice([1, 2, 3]) for _ in range(ndim)]
+                      with_verr=force_cont or rng.random() < .3, with_sel=rng.random() < .25)
+        calcul = [0] if (force_cont or rng.random() < .8) else [1] + [rng.choice([1, 2, 3]) for _ in range(ndim)]
         if calcul[0] == 1 and nfex > 0: calcul = [0]     # block kriging needs a grid target (no external drift column there)
         m = 5
         if calcul[0] == 1:
@@ -34,14 +35,23 @@ def gen_cases(ctx, ncase):
         if calcul[0] == 0 and all(dbin['coords'][d][k] is not None for d in range(ndim)):
             for d in range(ndim): dbout['coords'][d][0] = dbin['coords'][d][k]
         model = gen_model(rng, ndim, nvar, order=order, nfex=nfex)
-        if rng.random() < .65: neigh = [0]
+        if force_cont:
+            # targets close to one another: consecutive targets share their neighbours while their distances to them differ
+            for d in range(ndim):
+                base = dbout['coords'][d][1]
+                for j in range(2, m): dbout['coords'][d][j] = base + Fraction(rng.randint(-8, 8), 8)
+        if rng.random() < .65 and not force_cont: neigh = [0]
         else:
             neigh = [1, rng.choice([1, 2, 3]), rng.choice([4, 6, 8, n]), dy(rng.choice([20, 40, 1000]))]
+            if dbin['verr'] and (force_cont or rng.random() < .6):   # continuous moving neighbourhood (only acts when error variances are declared)
+                neigh.append(dy(rng.choice([Fraction(1, 4), Fraction(1, 2), Fraction(3, 4)])))
+                if neigh[3] == dy(1000): neigh[3] = dy(rng.choice([30, 60]))
         py = {'ndim': ndim, 'nvar': nvar, 'dbin': dbin, 'dbout': dbout, 'model': model, 'neigh': neigh, 'calcul': calcul}
         cases.append((py, kriging_case(ndim, nvar, dbin, dbout, model, neigh, calcul, list(range(m)))))
         ctx.dist('ndim%d' % ndim); ctx.dist('nvar%d' % nvar); ctx.dist('order%d' % order); ctx.dist('nfex%d' % nfex)
         ctx.dist('hetero' if hetero else 'isotopic'); ctx.dist('neigh_' + ('unique' if neigh[0] == 0 else 'moving'))
         ctx.dist('block' if calcul[0] else 'point'); ctx.dist('verr' if dbin['verr'] else 'noverr')
+        if neigh[0] and len(neigh) > 4: ctx.dist('continuous')
     return cases
 
 def mat_q(M): return [[unq(x) for x in r] for r in M]
@@ -159,6 +169,7 @@ def site_key(py):
     if py['dbin']['verr']: k.append('verr')
     if py['calcul'][0]: k.append('block')
     k.append('moving' if py['neigh'][0] else 'unique')
+    if py['neigh'][0] and len(py['neigh']) > 4: k.append('continuous')
     return '+'.join(k)
 
 def run(ctx):
@@ -192,6 +203,16 @@ def run(ctx):
     for (ci, py, t), mo, mc in zip(mref, model, mcases):
         if mo and mo[0] == -999:
             print('ERROR: model rejected a case'); sys.exit(3)
+        if t.get('alone') is not None:
+            # no state may survive from one target to the next: the same target on a fresh system gives the same outputs
+            seq = [x for v in range(py['nvar']) for x in (undy(t['est'][v]), undy(t['std'][v]), undy(t['varz'][v]))]
+            al = [undy(x) for x in t['alone']]
+            def differ(a, b): return (a is None) != (b is None) or (a is not None and abs(float(a) - float(b)) > 1e-9 * (1 + abs(float(b))))
+            if len(al) == len(seq) and any(differ(a, b) for a, b in zip(seq, al)):
+                nout += 1; found_input = True
+                ctx.violation('target-order:' + site_key(py), 'target %d processed after the other targets gives (estimate, stdev, varZ per variable) %s; alone on a fresh system %s' % (t['it'], [None if x is None else float(x) for x in seq], [None if x is None else float(x) for x in al]),
+                              {'impl_case': sx_str(cases[ci][1]), 'target': t['it']})
+                continue
         orc = check_oracle(py, t)
         if orc:
             nout += 1; found_input = True
